@@ -23,15 +23,17 @@ from . import common as c
 
 R = 0x73eda753299d7d483339d80809a1d80553bda402fffe5bfeffffffff00000001
 TOK = 1 << 260
+ONE_EQ = ("vcom_eq", "com_eq_sig", "ps_sig_known", "dlogaggequal", "replicate(dlog)", "and(dlog,com_eq)")
 
 MODELLED = {
     "dlog": "X_dlog", "com_eq": "X_com_eq", "com_enc_eq": "X_com_enc_eq", "com_mult": "X_com_mult",
     "aggregate_dlog": "X_aggregate_dlog", "and(dlog,com_eq)": "X_and_dlog_com_eq",
     "replicate(dlog)": "X_replicate_dlog", "com_lin": "X_com_lin", "com_eq_different_groups": "X_com_eq_diff",
     "enc_trans": "X_enc_trans", "com_ineq/com_mult": "X_com_mult", "vcom_eq": "X_vcom_eq", "com_eq_sig": "X_com_eq_sig", "ps_sig_known": "X_ps_sig_known",
+    "dlogaggequal": "X_dlogaggequal",  # private reference module, reached through the cfg hook sigma_protocols::verif_dlogaggequal
 }
 PREAMBLE = ("From Coq Require Import ZArith NArith List.\n"
-            "From CB Require Import Crypto.Alg Crypto.Transcript Crypto.SigmaGeneric Crypto.SigmaCodec Crypto.SigmaExec Crypto.Sigma_com_ineq.\n"
+            "From CB Require Import Crypto.Alg Crypto.Transcript Crypto.SigmaGeneric Crypto.SigmaCodec Crypto.SigmaExec Crypto.SigmaExecDae Crypto.Sigma_com_ineq.\n"
             "Import ListNotations.\n")
 
 
@@ -55,12 +57,12 @@ def kind(k):
 
 def model_pubs(cs, pubs):
     # com_eq_sig: the flat layout does not determine (n, key length); the model takes n as first element
-    return ([cs["n"]] + list(pubs)) if cs["p"] in ("com_eq_sig", "ps_sig_known") else pubs
+    return ([cs["n"]] + list(pubs)) if cs["p"] in ("com_eq_sig", "ps_sig_known", "dlogaggequal") else pubs
 
 
 def model_vals(cs, xs):
     # ps_sig_known: witness and response lists are parsed by message kind, which needs the number of messages
-    return ([cs["n"]] + list(xs)) if cs["p"] == "ps_sig_known" else xs
+    return ([cs["n"]] + list(xs)) if cs["p"] in ("ps_sig_known", "dlogaggequal") else xs
 
 
 def case_ctx(k, cs):
@@ -227,6 +229,8 @@ def run(ctx):
     nviol = [0]
     n_attack = [0]
     n_degenerate_attack = [0]
+    dae_attacks = []
+    n_dae_surplus = [0]
 
     def viol(obj, msg):
         nviol[0] += 1
@@ -284,7 +288,16 @@ def run(ctx):
         if cs["post"] is not None and cs["vpost"] != cs["post"]:
             viol({"case": cs}, "%s: prover and verifier end in different transcript states" % key)
         ta = cs.get("trunc_attack")
-        if ta is not None:
+        if ta is not None and cs["p"] == "dlogaggequal":
+            # the model (Sigma_dlogaggequal.v, theorem dlogaggequal_response_count_unchecked_refuted) says that
+            # extract_commit_message does NOT compare the number of inner response vectors with the number of
+            # aggregates: the crafted proof is PREDICTED to be accepted.  Compared with the model below.
+            dae_attacks.append(cs)
+            for nm, acc in ta.get("padded", []):
+                if acc is not False and cs["variant"] != "identity_generator":
+                    viol({"case": cs, "attack": ta, "padded_vector": nm},
+                         "%s: truncated-response attack accepted after padding `%s`" % (key, nm))
+        elif ta is not None:
             n_attack[0] += 1
             if ta.get("accepted") is not False:
                 viol({"case": cs, "attack": ta},
@@ -310,6 +323,11 @@ def run(ctx):
                 n_pert_rej += 1
                 continue
             # accepted although altered
+            if cs["p"] == "dlogaggequal" and nm == "extend_responses":
+                # same observation as the truncated-response attack, other direction: surplus inner response vectors are
+                # ignored by the zip (theorem dlogaggequal_surplus_responses_ignored_refuted: the model accepts it as well)
+                n_dae_surplus[0] += 1
+                continue
             if nm.startswith("resp") and same_cm and cs["variant"] == "identity_generator":
                 n_degenerate += 1  # phi not injective: the base of this component is the identity point
                 continue
@@ -355,6 +373,16 @@ def run(ctx):
                 r2[j] = (r2[j] + 1) % R
                 exprs.append(verify_expr(cs, pubs, r2))
             meta.append(("pert", i, pe))
+    for cs in dae_attacks:
+        ta = cs["trunc_attack"]
+        if "resp" not in ta or cs not in mod_cases:
+            continue
+        k = kind(cs["k"])
+        rb = bytes.fromhex(ta["resp"])
+        zs = [int.from_bytes(rb[o:o + 32], "big") for o in cs["offs"]]
+        exprs.append(HEXOUT_V % ("x_verify_dae_trunc %s %s %s %s %d %s" % (
+            k, case_ctx(k, cs), zl([cs["n"] + 1] + [int(x, 16) for x in ta["pub"]]), nl(bytes.fromhex(ta["chal"])), cs["n"], zl(zs))))
+        meta.append(("dae_attack", mod_cases.index(cs), None))
     # V1 label framing on its own (ties Transcript.v to append_label / with_domain)
     rcf, outf = c.run_bin(binp, ["findings", ctx.seed, 1], timeout=600)
     fnd = {}
@@ -380,6 +408,8 @@ def run(ctx):
         terms = None
     ctx.notes["model_eval_s"] = round(time.time() - t0, 1)
     n_corr = n_pert_corr = 0
+    n_dae = [0, 0]
+    honest_frames, one_eq = {}, {}
     if terms is not None:
         alltoks = []
         for m, t in zip(meta, terms):
@@ -396,6 +426,27 @@ def run(ctx):
                 continue
             cs = mod_cases[i]
             key = "%s/n=%s/%s/%s" % (cs["p"], cs.get("n"), cs.get("variant"), cs.get("k"))
+            if kind_ == "dae_attack":
+                ta = cs["trunc_attack"]
+                pred_accept = t is not None and sha3(pts.expand(t[1][0])) == ta["chal"]
+                n_dae[0] += 1
+                n_dae[1] += 1 if (pred_accept and ta.get("accepted") is True) else 0
+                if pred_accept and ta.get("accepted") is False:
+                    # the implementation is STRICTER than the model: the reference module has been repaired (length check added)
+                    ctx.notes["dlogaggequal_response_count_now_checked_by_code"] = ctx.notes.get("dlogaggequal_response_count_now_checked_by_code", 0) + 1
+                elif pred_accept != (ta.get("accepted") is True):
+                    viol({"case": cs, "attack": ta, "model_predicts_accept": pred_accept, "coq_expr": e},
+                         "%s: truncated-response attack: implementation %s, model predicts %s" % (
+                             key, "accepts" if ta.get("accepted") is True else "rejects", "accept" if pred_accept else "reject"))
+                continue
+            if kind_ == "pert" and t is not None and i in honest_frames and cs["p"] in ONE_EQ:
+                hf, pf = honest_frames[i], t[1][0]
+                if len(hf) == len(pf) and sum(1 for x, y in zip(hf, pf) if x != y and x >= TOK) == 1 and pe[0].startswith("resp"):
+                    # a response that satisfies every verification equation but ONE (exactly one reconstructed
+                    # commit-message element differs): must be rejected by model and code (checked below)
+                    d1 = one_eq.setdefault(cs["p"], [0, 0])
+                    d1[0] += 1
+                    d1[1] += 1 if pe[1] else 0
             if kind_ == "honest":
                 n_corr += 1
                 if t is None and cs["ver"] is not True:
@@ -404,6 +455,7 @@ def run(ctx):
                     viol({"case": cs, "model": str(t)[:300]}, "%s: the model rejects a proof the implementation produced and accepts" % key)
                     continue
                 (cm_ok, resp_ok, rel_ok), (frame, after) = t
+                honest_frames[i] = frame
                 fb, ab_ = pts.expand(frame), pts.expand(after)
                 problems = []
                 if rel_ok != "true":
@@ -476,13 +528,19 @@ def run(ctx):
                                   "model_checked": n_pert_corr}
     ctx.notes["truncated_response_attacks_rejected"] = n_attack[0]
     ctx.notes["padded_attacks_degenerate_identity_points"] = n_degenerate_attack[0]
+    # corpus/C07/one_equation_attacks.json: [model-evaluated, rejected by the implementation] per protocol
+    ctx.notes["one_equation_attacks"] = {k: {"model_evaluated": v[0], "rejected_by_code": v[1]} for k, v in sorted(one_eq.items())}
+    # OBSERVATION (private, unused reference module dlogaggequal.rs): the number of inner response vectors is not compared
+    # with the number of aggregates; model and implementation agree that the crafted truncated proof is accepted
+    ctx.notes["dlogaggequal_truncated_response_model_vs_code"] = {"compared": n_dae[0], "accepted_by_model_and_code": n_dae[1],
+                                                                  "surplus_inner_vector_accepted_by_code_as_the_model_theorem_says": n_dae_surplus[0]}
     ctx.notes["modelled_protocols"] = sorted(MODELLED)
     ctx.notes["oracle_only_protocols"] = sorted(set(dist) - set(MODELLED))
     ctx.cov["samples"] += [{k: v for k, v in cs.items() if k in ("p", "n", "variant", "k", "ctx", "pub", "wit", "chal", "resp")}
                            for cs in cases[:2]]
     ctx.cov["rule"] = ("per round and variant (random, zero witness, all generators equal, identity-point generators, small scalars): "
                        "dlog, com_eq, com_enc_eq, com_mult, com_eq_different_groups, and(dlog,com_eq); sizes 0,1,2,17 (rotating, + random) of "
-                       "aggregate_dlog, com_lin, vcom_eq, replicate(dlog); enc_trans with 0,1,2,4 chunks; com_eq_sig and ps_sig_known with the number "
+                       "aggregate_dlog, com_lin, vcom_eq, replicate(dlog); dlogaggequal (cfg hook) with 0,1,2,3(+) aggregates of 1,2,3 coefficients; enc_trans with 0,1,2,4 chunks; com_eq_sig and ps_sig_known with the number "
                        "of messages equal to / one below the key length (0,1,2,3,6); each under TranscriptProtocolV1 and legacy RandomOracle with a "
                        "random context (domain + labelled messages); com_ineq separately (+ its inner ComMult proof in the exponent). Every case: "
                        "completeness, one-at-a-time perturbation of every public field / context / challenge / response component / transcript kind, "
